@@ -28,7 +28,8 @@ RULE = (
     "shuffled order on a deep copy of the pool state it saw and must reproduce outcome type and value (1e-13 relative), "
     "repeated (operation, argument-digest) keys within the history must agree; pass 3 replays the history with every "
     "ndarray write-protected (M-ro); each shell's own overlap diagonal is 1 within 1e-8 as constructed and after each "
-    "update+renormalisation. non-trivial history: >= 5 operations, >= 1 raising, >= 1 repeated key."
+    "update+renormalisation, and the updated basis must give the same arrays as a basis constructed from scratch with the "
+    "same parameters (no stale derived state). non-trivial history: >= 5 operations, >= 1 raising, >= 1 repeated key."
 )
 FLOOR = {"quick": 25, "thorough": 100}
 DECIDING = ["M-pure", "M-fp", "M-pure-raise", "M-fresh", "M-alias"]
@@ -291,6 +292,27 @@ def run_history(case, pool, mode, viols, pass_name):
                 d = float(np.abs(np.diag(S) - 1).max())
                 if not d <= 1e-8:
                     viols.append(cm.viol("after %s + assign_norm_cont() the shell's overlap diagonal deviates from 1 by %.3e" % (name, d), "renormalisation", d, 1e-8, op_index=k))
+            # results depend only on the arguments: the updated basis must behave exactly like a basis constructed
+            # from scratch with the same parameters (no stale derived state inside the shell objects)
+            from gbasis.contractions import GeneralizedContractionShell as _G
+            from gbasis.evals.eval_deriv import evaluate_deriv_basis as _edb
+            from gbasis.integrals.kinetic_energy import kinetic_energy_integral as _kin
+            from gbasis.integrals.point_charge import point_charge_integral as _pc
+
+            fresh = [_G(int(x.angmom), np.array(x.coord), np.array(x.coeffs), np.array(x.exps), x.coord_type) for x in pool["basis"]]
+            for nm, fn in (("overlap_integral", lambda b: overlap_integral(b)), ("kinetic_energy_integral", lambda b: _kin(b)),
+                           ("evaluate_deriv_basis", lambda b: _edb(b, np.array(pool["pts"]), np.array([1, 0, 1]))),
+                           ("point_charge_integral", lambda b: _pc(b, np.array(pool["pts"]), np.array(pool["chg"])))):
+                a1, a2 = cm.call(fn, list(pool["basis"])), cm.call(fn, fresh)
+                evals += 1
+                if isinstance(a1, cm.Raised) or isinstance(a2, cm.Raised):
+                    if type(a1) is not type(a2):
+                        viols.append(cm.viol("%s behaves differently on an updated shell and on a shell constructed from the same parameters" % nm, "stale_state", op=name))
+                    continue
+                ok, why = same_value(a1, a2)
+                if not ok:
+                    viols.append(cm.viol("[%s] after %s + assign_norm_cont(), %s on the updated basis differs from the same basis constructed from scratch: %s" % (pass_name, name, nm, why),
+                                         "stale_state", op=name, function=nm))
             rec.append((o, None, None, None))
             continue
         pre = copy.deepcopy(pool) if mode == "record" else None
